@@ -21,7 +21,7 @@ ASSUME_COMMON = [
 def exec_cases(ctx, tag, families, rate, workers=10, timeout=900, devs=None):
     """Run MC_Exec for the given families; returns the REPLAY records (case + allowed outcome)."""
     consts = dict(BASE_CONSTS)
-    consts.update({"Seed": ctx.seed, "Rate": rate, "Families": set(families),
+    consts.update({"Seed": ctx.seed, "Rate": rate, "Families": set(families), "Deep": not ctx.quick,
                    "KnownDevs": set(core.known_devs(ctx.prop)) if devs is None else set(devs)})
     r = run_tlc(f"{ctx.prop}-{tag}", "MC_Exec", consts, invariants=["Inv"], workers=workers, timeout=timeout)
     if r.violation:
@@ -392,7 +392,7 @@ def run_C05(ctx):
     # the abstraction is sound: Machine refines MachineCF on the concrete case families
     consts = dict(BASE_CONSTS)
     consts.update({"Seed": ctx.seed, "Rate": 16 if ctx.quick else 4, "Families": {"calls", "helpers", "jmp", "bounds", "mem", "far"},
-                   "KnownDevs": set()})
+                   "KnownDevs": set(), "Deep": False})
     rr = run_tlc(f"{ctx.prop}-refine", "MC_Exec", consts, invariants=["Inv"], properties=["CFRefinement"], workers=10, timeout=1500)
     if rr.violation:
         ctx.violation("Machine does not refine MachineCF: the control-flow abstraction is unsound", {"kind": "tlc", "output": rr.violation[:3000]})
